@@ -175,6 +175,28 @@ SPECS["C03"] = dict(
                 budget={"quick": 90, "thorough": 600})],
 )
 
+def router_part(name, run, files, **kw):
+    d = dict(name=name, pkg="app/router", run=run, go="go1.26", env=E3ENV, gomaxprocs=1, engines=E3ENGINES,
+             files=dict(ROUTER_COMMON, **{"harness/router/" + f: "app/router/" + f for f in files}),
+             budget={"quick": 90, "thorough": 600})
+    d.update(kw)
+    return d
+
+
+SPECS["C12"] = dict(
+    level="model_checking",
+    engine="E3 evx",
+    state_based=True,
+    technique="exhaustive enumeration of (ECS setting, client address, rule, client OPT, upstream OPT) x cache path on the real router in a virtual-time bubble, plus bit-exhaustive ECS encoding",
+    claim="For every combination of ECS on/off, client address kind, rule outcome, client OPT shape and upstream OPT shape, on the miss, hit, refresh and post-refresh paths: a response carries "
+          "exactly one option-less OPT advertising the proxy's size iff the query had one; every upstream query (including background refreshes) carries exactly one OPT, with a Client "
+          "Subnet option only when enabled and the address is known, truncated to /24 or /56 with scope 0 and no host bits; checked for every single-bit and all-ones address.",
+    trusted="scripted upstream at the Upstream interface; tcp listener seam.",
+    rule="see evidence rule written by the harness",
+    assumptions=["at most one OPT per message (RFC 6891)", "limiter off (refusals are built without OPT by design, C15)"],
+    parts=[router_part("edns", "TestVerifC12", ["zz_verif_c12_test.go", "zz_verif_c03_test.go"])],
+)
+
 
 # --------------------------------------------------------------------------------------------
 # Properties not (yet) claimed. Kept current: every property without a SPECS entry must be here.
